@@ -6,6 +6,24 @@ HERE = os.path.dirname(os.path.dirname(os.path.abspath(__file__)))
 
 # property id -> (technique, level text, level note, design ref)
 CLAIMED = {
+    "C01": (
+        "proptest-driven tape generation of typed values + bounded-exhaustive presence-mask / variant sweeps, round-trip oracle",
+        "Generated-input search over ~140 public types: each generated value is encoded, checked for well-formedness by an independent CBOR reader, decoded, compared (library equality with empty optional collections counted as absent), re-encoded (byte equality) and passed through the hex entry points in both letter cases. All 2^18 presence masks of TransactionBody, the low/high-weight masks of ProtocolParamUpdate and all short boundary tapes of every certificate / governance action / relay / native script variant are enumerated. Exploration is the right level: the space is unbounded and the oracle is a cheap executable round trip.",
+        "Trusts the engine's CBOR reader (unit-tested against RFC 8949 Appendix A) and the library's PartialEq as the notion of equality; nesting depth and collection sizes are bounded (evidence states the bounds).",
+        "DESIGN.md §5 C01",
+    ),
+    "C03": (
+        "proptest-driven tape generation of typed values validated by an independent schema-directed Conway CDDL validator",
+        "Generated-input search: bytes emitted for typed values of every type that has a schema rule (and, via sub-check builder_tx, every transaction the builder scenarios produce) are parsed by the engine's own CBOR reader and validated node by node against the engine's transcription of the Conway CDDL (keys, arities, tags, ranges, size bounds, shortest definite encoding with the two Plutus exceptions, tag 258 + distinct elements for sets). Rule coverage is reported. Exploration is the right level: conformance of an encoder to a grammar over an unbounded value space.",
+        "The oracle is the engine's own transcription of the CDDL (DESIGN.md Appendix A) with the stated leniencies for pre-Conway forms; it shares no code with the library or cbor_event.",
+        "DESIGN.md §5 C03, Appendix A",
+    ),
+    "C14": (
+        "proptest-driven tape generation over width classes + boundary-point enumeration against u128/i128/num-bigint reference arithmetic and an independent CBOR reader",
+        "Generated-input search: BigNum/Int/BigInt/Value operations and codecs are compared with exact reference arithmetic; every Int obtained through any public route (constructors, decimal strings, CBOR incl. non-minimal heads, JSON, metadata JSON numbers and keys, MintBuilder accumulation, Mint JSON) is checked for range and for exact survival through to_str/from_str, CBOR (read back independently) and JSON; Value laws (commutativity, associativity, subtraction undoing addition, comparison vs component-wise order) are checked against a BTreeMap model.",
+        "Trusts num-bigint and 128-bit machine arithmetic. Asset clamping in Value::checked_sub is documented library behaviour and not counted as silent saturation; BigNum::div_floor by zero is outside the domain.",
+        "DESIGN.md §5 C14",
+    ),
     "C15": (
         "proptest-driven tape generation + bounded-exhaustive tier-edge enumeration against an exact big-integer reference",
         "Generated-input search: argument tuples over every CBOR width class and every 25 KiB tier edge are compared with a tier-by-tier exact reference (value equality, and Err exactly when the exact value exceeds u64). Exploration is the right level: the functions are pure and cheap, so millions of cases per run cover the boundary structure; absence of a defect in an untested 64-bit point is not established.",
